@@ -54,7 +54,7 @@ def parse_label(lab):
     m = re.match(r"Setup\((\d+)\)", lab)
     if m:
         return dict(kind="setup", k=int(m.group(1)))
-    if lab.startswith("Enter"):
+    if lab.startswith(("Enter", "ReEnter")):
         return dict(kind="enter")
     if lab.startswith("ExitExc"):
         return dict(kind="exit_exc")
